@@ -240,7 +240,88 @@ func checkC11(c *Ctx) {
 		}
 		c.Oblige("C11.smul", "pkg/expr/exprtools.SignedMul", c.Prog.FuncPos(f), bad == "", bad)
 	}
-	c.RequireCount("C11 gadgets decided", n, 18)
+	// ---- the sign mask itself: widths are a finite set (1..MaxWidth), so the
+	// function is walked (E7, typed integer arithmetic) for every one of them
+	c.Rule("C11.signmask", "signBitMask(w), walked for every width 1..MaxWidth, returns either the constant 1<<(8w-1) of width w or the node Lsh(1, 8w-1) of width w")
+	if sm := c.Prog.Func(tpkg + ".signBitMask"); sm != nil && sm.Blocks != nil && len(sm.Params) == 1 {
+		n++
+		maxW := int64(255)
+		if v, ok := absint.ConstByName(ep, "MaxWidth"); ok {
+			maxW = int64(v)
+		}
+		lshOp := int64(-1)
+		for k, name := range ops {
+			if name == "Lsh" {
+				lshOp = k
+			}
+		}
+		bad, walked := "", 0
+		for w := int64(1); w <= maxW && bad == ""; w++ {
+			var vl *Valuation
+			form, okForm := "", false
+			vl = &Valuation{
+				Typed: true,
+				Enter: func(g *ssa.Function) bool {
+					return g != nil && g.Blocks != nil && PkgPathOf(g) == ExprPkg && NameOf(g) == "Bits"
+				},
+				Int: func(v ssa.Value) (int64, bool) {
+					if v == ssa.Value(sm.Params[0]) {
+						return w, true
+					}
+					return 0, false
+				},
+			}
+			var last *ssa.Call
+			vl.Visit = func(in ssa.Instruction) {
+				call, ok := in.(*ssa.Call)
+				if !ok || call.Call.StaticCallee() == nil {
+					return
+				}
+				g := Origin(call.Call.StaticCallee())
+				switch {
+				case FuncNameIs(g, "pkg/expr.NewConstUint") && len(call.Call.Args) == 2:
+					k, ok1 := vl.EvalInt(call.Call.Args[0], nil)
+					ww, ok2 := vl.EvalInt(call.Call.Args[1], nil)
+					last, form = call, "const"
+					okForm = ok1 && ok2 && ww == w && 8*w-1 < 64 && uint64(k) == uint64(1)<<uint(8*w-1)
+				case FuncNameIs(g, "pkg/expr.NewBinary") && len(call.Call.Args) == 4:
+					op, ok0 := ConstInt(call.Call.Args[0])
+					ww, ok2 := vl.EvalInt(call.Call.Args[3], nil)
+					one := false
+					if ld, isLd := Unwrap(call.Call.Args[1]).(*ssa.UnOp); isLd {
+						if gl, isG := ld.X.(*ssa.Global); isG && gl.Name() == "One" {
+							one = true
+						}
+					}
+					amt := int64(-1)
+					if sc, isC := Unwrap(vl.Root(call.Call.Args[2])).(*ssa.Call); isC && sc.Call.StaticCallee() != nil && FuncNameIs(Origin(sc.Call.StaticCallee()), "pkg/expr.ConstFromUint") {
+						amt, _ = vl.EvalInt(sc.Call.Args[0], nil)
+					}
+					last, form = call, "shift"
+					okForm = ok0 && op == lshOp && ok2 && ww == w && one && amt == 8*w-1
+				}
+			}
+			res := vl.Walk(sm.Blocks[0], nil)
+			ret, isRet := res.End.(*ssa.Return)
+			switch {
+			case !res.OK:
+				bad = fmt.Sprintf("width %d: the function cannot be followed: %s", w, res.Why)
+			case !isRet:
+				bad = fmt.Sprintf("width %d: the function panics", w)
+			case last == nil || Unwrap(vl.Root(ret.Results[0])) != ssa.Value(last):
+				bad = fmt.Sprintf("width %d: the result is not a constant or a shift built here", w)
+			case !okForm:
+				bad = fmt.Sprintf("width %d: the %s built is not 1<<(8*%d-1) at width %d", w, form, w, w)
+			default:
+				walked++
+			}
+		}
+		c.Oblige("C11.signmask", "pkg/expr/exprtools.signBitMask", c.Prog.FuncPos(sm), bad == "", bad)
+		c.Saw("signmask_widths", fmt.Sprintf("%d", walked))
+	} else {
+		c.Undecide("C11.signmask: %s.signBitMask not found", tpkg)
+	}
+	c.RequireCount("C11 gadgets decided", n, 19)
 }
 
 func ruleOfGadget(name string) string {
